@@ -24,7 +24,9 @@ Definition e_raw (r : raw_part) : sexp :=
    7: bibtex_abbreviate(s, delimiter)
    8: pattern.match(s): 0 TEXT, 1 NON_LETTERS, 2 FORMAT_CHARS -- length of the match, 0 = none
    9: NameFormat(f).format(person with the given part lists)
-   10: parse_name_part on the text after an opening brace: the raw 4-tuple and the rest *)
+   10: parse_name_part on the text after an opening brace: the raw 4-tuple and the rest
+   11: a history of calls (names, n, format, via) in one process, via 0 = format_name(names, format),
+       via 1 = the format.name$ built-in; the model is a function, so every call is answered on its own *)
 Definition dispatch (fn : Z) (a : sexp) : sexp :=
   match fn with
   | 1%Z => e_res (e_list e_part) (parse_format (d_str (d_nth a 0)))
@@ -38,6 +40,11 @@ Definition dispatch (fn : Z) (a : sexp) : sexp :=
            e_nat (match d_nat (d_nth a 0) with 0 => m_text s | 1 => m_non_letters s | _ => m_format_chars s end)
   | 9%Z => e_res e_str (format_person (d_str (d_nth a 0)) (d_person (d_nth a 1)))
   | 10%Z => e_res (e_pair e_raw e_str) (parse_name_part (d_str (d_nth a 0)))
+  | 11%Z => L (map (fun c =>
+               e_res (e_pair e_str e_bool)
+                 (if d_bool (d_nth c 3)
+                  then format_name_n (d_str (d_nth c 0)) (d_Z (d_nth c 1)) (d_str (d_nth c 2))
+                  else format_name (d_str (d_nth c 0)) (d_str (d_nth c 2)))) (d_items a))
   | _ => L []
   end.
 
